@@ -14,6 +14,8 @@ are the known findings of this property (known_findings.json).
 -/
 import KmipModel.Lemmas.NoInternal
 import KmipModel.Lemmas.Run
+import KmipModel.Lemmas.WellTypedModify
+import KmipModel.Lemmas.StoreShape
 import KmipModel.Gen.Tables
 namespace Kmip.C13
 open Kmip
@@ -334,5 +336,129 @@ theorem no_internal_error_partial (policies : Policies) (now : Nat) (e : Engine)
     · exact (crypto_ops_noInternal _ _ _ _ _ hcr).2.2.2
     · exact mac_noInternal _ _ _ _ _ _ hcr
     · exact NoInternal.kerr _ _
+
+/-! ## The full statement: every well-typed request, every operation, every reachable store -/
+
+/-- **Table obligations** (re-evaluated on the regenerated table on every run). -/
+theorem table_single : (realCtx [] 0).mv "Cryptographic Algorithm" = false ∧
+    (realCtx [] 0).mv "Cryptographic Length" = false := by
+  constructor <;> (simp only [Ctx.mv, Ctx.rule?, realCtx]; decide +kernel)
+
+def modSafeCheck : Bool :=
+  (shapeSensitive ++ ["Operation Policy Name"]).all (fun n =>
+    match Gen.attrRules.find? (·.name == n) with
+    | some r => !r.modifiableByClient
+    | none => true)
+
+theorem table_mod_safe : modSafeCheck = true := by decide +kernel
+
+def multiStoredCheck : Bool :=
+  ["Name", "Object Group", "Application Specific Information"].all (fun n =>
+    match Gen.attrRules.find? (·.name == n) with
+    | some r => decide (r.versionAdded ≤ 10) && r.versionDeprecated.isNone &&
+        storedTypes.all (fun t => r.appliesTo.contains t)
+    | none => false)
+
+theorem table_multi_stored : multiStoredCheck = true := by decide +kernel
+
+theorem realCtx_facts (policies : Policies) (now : Nat) : TableFacts (realCtx policies now) :=
+  ⟨table_single.1, table_single.2⟩
+
+theorem realCtx_attrFacts (policies : Policies) (now : Nat) : AttrTableFacts (realCtx policies now) where
+  shapes := fun o name r g hr hg => real_shape policies now o name r hr g hg
+  mod_safe := by
+    intro name r hr hm
+    have key : ∀ n ∈ shapeSensitive ++ ["Operation Policy Name"], name ≠ n := by
+      intro n hn heq
+      subst heq
+      have := List.all_eq_true.mp table_mod_safe name hn
+      simp only [realCtx, Ctx.rule?] at hr
+      rw [hr] at this
+      simp only [hm, Bool.not_true] at this
+      cases this
+    refine ⟨fun hmem => key name (List.mem_append_left _ hmem) rfl, ?_⟩
+    exact key _ (by simp)
+  multi_stored := by
+    intro name hn
+    have hmem : name ∈ ["Name", "Object Group", "Application Specific Information"] := by
+      rcases hn with rfl | rfl | rfl <;> simp
+    have := List.all_eq_true.mp table_multi_stored name hmem
+    simp only [realCtx, Ctx.rule?]
+    cases hf : Gen.attrRules.find? (·.name == name) with
+    | none => rw [hf] at this; cases this
+    | some r =>
+      rw [hf] at this
+      simp only [Bool.and_eq_true, decide_eq_true_eq, Option.isNone_iff_eq_none, List.all_eq_true] at this
+      exact ⟨r, rfl, this.1.1, this.1.2, this.2⟩
+
+/-- What the TTLV decoder guarantees about one batch item, plus what the cryptography backend is assumed
+to answer (bytes or a KMIP error).  `ValOk` = the attribute value has the kind its name dictates. -/
+def WellTyped (c : Ctx) (e : Engine) (it : Item) : Prop :=
+  match it.payload with
+  | .create _ t => TemplateOk? c t ∧ it.crypto.FitsCreate c e.version t
+  | .createKeyPair cm pr pu => TemplateOk? c cm ∧ TemplateOk? c pr ∧ TemplateOk? c pu ∧ it.crypto.Pair
+  | .register _ t _ => TemplateOk? c t
+  | .deriveKey _ us t _ _ => TemplateOk? c t ∧ us ≠ [] ∧ it.crypto.Bytes
+  | .locate _ _ as => FiltersOk c as
+  | .get _ _ _ w => w = none ∨ Crypto.Token it.crypto
+  | .query fs => fs ≠ []
+  | .encrypt .. | .decrypt .. | .sign .. | .signatureVerify .. | .mac .. => Crypto.Sane it.crypto
+  | .setAttribute _ a => ValOk c a.name a.value
+  | .modifyAttribute _ a cu nw =>
+      (e.version ≥ 20 → ∃ n, nw = some n ∧ ValOk c n.name n.value) ∧
+      (¬ e.version ≥ 20 → ∃ x, a = some x ∧ ValOk c x.name x.value) ∧
+      (∀ cur, cu = some cur → ValOk c cur.name cur.value)
+  | .deleteAttribute _ _ _ cu _ => ∀ cur, cu = some cur → ValOk c cur.name cur.value
+  | _ => True
+
+/-- **C13, full statement on the model**: under the real rule table, for every engine state whose store has
+the shape every reachable store has (`run_shape`), every protocol version from 1.0 on, every identity and
+every well-typed item of any of the 22 operations, `processOperation` never ends in the internal-error
+outcome (= the General Failure answer). -/
+theorem no_internal_error (policies : Policies) (now : Nat) (e : Engine) (it : Item)
+    (hs : StoreShape e.store) (hver : 10 ≤ e.version) (hwt : WellTyped (realCtx policies now) e it) :
+    NoInternal (processOperation (realCtx policies now) e it) := by
+  have hf := realCtx_facts policies now
+  have haf := realCtx_attrFacts policies now
+  have hswt : StoreWT e.store := fun o ho => (hs o ho).2
+  unfold processOperation
+  split
+  · exact NoInternal.kerr _ _
+  · refine NoInternal.ite (fun _ => NoInternal.kerr _ _) (fun _ => ?_)
+    unfold WellTyped at hwt
+    split <;> rename_i hpay <;> rw [hpay] at hwt <;> simp only at hwt
+    · exact opCreate_noInternal hf hwt.1 hwt.2
+    · exact opCreateKeyPair_noInternal hf hwt.1 hwt.2.1 hwt.2.2.1 hwt.2.2.2
+    · exact opRegister_noInternal hwt
+    · exact opDeriveKey_noInternal hf hswt hwt.1 hwt.2.1 hwt.2.2
+    · exact opLocate_noInternal hwt
+    · rcases hwt with hop | hop
+      · subst hop; exact get_plain_noInternal _ _ _ _ _ _
+      · exact get_wrapped_noInternal _ _ _ _ _ _ _ hop
+    · exact (get_attributes_noInternal policies now e _ _).1
+    · exact (get_attributes_noInternal policies now e _ []).2
+    · exact opActivate_noInternal _ _ _
+    · exact opRevoke_noInternal _ _ _ _
+    · exact opDestroy_noInternal _ _ _
+    · exact opQuery_noInternal _ _ hwt
+    · exact opDiscoverVersions_noInternal _ _ _
+    · exact (crypto_ops_noInternal _ _ _ _ _ hwt).1
+    · exact (crypto_ops_noInternal _ _ _ _ _ hwt).2.1
+    · exact (crypto_ops_noInternal _ _ _ _ _ hwt).2.2.1
+    · exact (crypto_ops_noInternal _ _ _ _ _ hwt).2.2.2
+    · exact mac_noInternal _ _ _ _ _ _ hwt
+    · exact opSetAttribute_noInternal hwt
+    · exact opModifyAttribute_noInternal haf (fun o ho => (hs o ho).1) hver hwt.1 hwt.2.1 hwt.2.2
+    · exact opDeleteAttribute_noInternal haf hwt
+    · exact NoInternal.kerr _ _
+
+/-- the store hypothesis of `no_internal_error` holds after every history of decodable requests -/
+theorem reachable_store_shape (steps : List Step) (hok : StepsTyped steps) :
+    StoreShape (run ⟨Store.empty, none, 12, default⟩ steps).store :=
+  run_shape _ steps hok Store.inv_empty StoreShape.empty
+
+/-- non-vacuity: a Create item with a complete template and a 16-byte backend answer is well typed -/
+example : WellTyped (realCtx [] 0) ⟨Store.empty, none, 12, default⟩
+    ⟨.activate (some "1"), none, .ok ""⟩ := by simp [WellTyped]
 
 end Kmip.C13
